@@ -507,21 +507,18 @@ def handleOp (e : Env) (fname : String) (n : Nat) (op : String) (d : Desc) (l : 
     else
     -- specification: the cyclotomic element with these four coefficients (unique when g2 ≠ 0 or g3 ≠ 0; Karabina's
     -- formulas in the specification's arithmetic give the only candidate). No such element: unspecified.
-    let m : List Nat := Flat.toFlat (fp12BackCyc (fp2Ops e.base e.qnr) e.nor2 (d.isOne a) (Flat.ofFlat a))
+    let m : List Nat := Flat.toFlat (fp12BackCyc (fp2Ops e.base e.qnr) e.nor2 (Flat.ofFlat a))
     let idc := pck12.all (fun i => (fp2Units a).getD i [] == [0, 0])
     if idc then
-      -- the compressed identity: recognised by the library only when c[0][0] still holds 1
-      some { model := if d.isOne a then fmt d.one else "err", spec := [fmt d.one], tags := ["back_cyc-identity"] }
+      -- the compressed identity (all four retained coefficients zero), whatever the other two coefficients hold
+      some { model := fmt m, spec := [fmt d.one], tags := ["back_cyc-identity"] }
     else
     match specBack12 e a with
     | none => some (unspecified "pre-false")
     | some cand =>
       if !c.isCyc cand then some (unspecified "pre-false") else
-      -- the repaired formula (theorem fp12_back_cyc_repaired) evaluated on the same operand: must give the specification's element
-      let fixed : List Nat := Flat.toFlat (fp12BackCycFixed (fp2Ops e.base e.qnr) e.nor2 (Flat.ofFlat a))
       some { model := fmt m, spec := [fmt cand],
-             tags := [if (fp2Units a).getD 3 [] == [0, 0] then "back_cyc-g2zero" else "back_cyc", if relCyc12 e cand then "rel-ok" else "REL-MISMATCH",
-                      if d.eq fixed cand then "repair-ok" else "REPAIR-MISMATCH"] }
+             tags := [if (fp2Units a).getD 3 [] == [0, 0] then "back_cyc-g2zero" else "back_cyc", if relCyc12 e cand then "rel-ok" else "REL-MISMATCH"] }
   | "back_cyc_sim", k :: rest =>
     let k ← k.toNat?
     let as ← parseEls c (rest.take k)
@@ -530,10 +527,9 @@ def handleOp (e : Env) (fname : String) (n : Nat) (op : String) (d : Desc) (l : 
     let cands := as.map fun a => if idc a then some d.one else specBack12 e a
     if !(cands.all fun x => match x with | some v => c.isCyc v | none => false) then some (unspecified "pre-false") else
     let want := String.intercalate " " (cands.map fun x => fmt (x.getD []))
-    let ms := as.map fun a => (Flat.toFlat (fp12BackCyc (fp2Ops e.base e.qnr) e.nor2 (d.isOne a) (Flat.ofFlat a)) : List Nat)
-    let idBad := as.any fun a => idc a && !d.isOne a
-    some { model := if idBad then "err" else String.intercalate " " (ms.map fmt), spec := [want],
-           tags := [if idBad then "back_cyc-identity" else if as.any (fun a => (fp2Units a).getD 3 [] == [0, 0]) then "back_cyc-g2zero" else "back_cyc_sim"] }
+    let ms := as.map fun a => (Flat.toFlat (fp12BackCyc (fp2Ops e.base e.qnr) e.nor2 (Flat.ofFlat a)) : List Nat)
+    some { model := String.intercalate " " (ms.map fmt), spec := [want],
+           tags := [if as.any idc then "back_cyc-identity" else if as.any (fun a => (fp2Units a).getD 3 [] == [0, 0]) then "back_cyc-g2zero" else "back_cyc_sim"] }
   | "pck", [a] =>
     let a ← el a
     if n == 12 then
